@@ -10,8 +10,10 @@ interleaved in ANY order), for every read-mask projection `proj`:
 * no step ever writes to an allocated event cell: whatever a consumer received, and whatever the bus
   handed out, keeps its contents for ever, whoever else holds the same pointer and however far a
   stalled lossy subscriber's merger falls behind (`mergeCollectionExcess` merges into private copies);
-* what a lossy subscriber's consumer receives is a cell its own pipeline allocated: it is never a
-  bus cell and never a cell another subscriber's consumer holds.
+* what a lossy Collection subscriber's consumer receives is a cell its own pipeline allocated: it is
+  never a bus cell and never a cell another subscriber's consumer holds.  (A lossy VALUE subscriber is
+  different: `minibus.DropExcess` keeps the latest pointer, so its consumer holds the bus's object like
+  everybody else — covered by the immutability theorems, not by the privacy theorem.)
 
 `C07_events_shared_merge_writes` shows the model can express the seeded shape (a merger that keeps
 the bus's pointer and writes the merge result through it): there the shared cell changes.
@@ -43,23 +45,24 @@ theorem C07_events_received_immutable (proj : Nat → Nat) (before after : List 
   rw [run_append]
   exact C07_events_immutable proj s1 after r hlt
 
-/-- **C07_events_lossy_private.** In any run from the empty system, an event a lossy subscriber's
+/-- **C07_events_lossy_private.** In any run from the empty system, an event a lossy Collection subscriber's
 consumer has received was allocated by that subscriber's own pipeline: it is not a cell of the bus,
 and any subscriber whose consumer holds the same reference is that subscriber (indices are unique). -/
 theorem C07_events_lossy_private (proj : Nat → Nat) (steps : List Step) :
     let s := run proj ES.init steps
     (s.subs.map (·.idx)).Nodup ∧
-    ∀ sb, sb ∈ s.subs → sb.lossy = true → ∀ r, r ∈ sb.out →
+    ∀ sb, sb ∈ s.subs → sb.lossy = true → sb.value = false → ∀ r, r ∈ sb.out →
       s.owner r = some sb.idx ∧ (∀ sb', sb' ∈ s.subs → r ∈ sb'.out → sb'.idx = sb.idx) ∧
       (∀ sb', sb' ∈ s.subs → r ∉ sb'.inbox) := by
   intro s
   have hi : Inv s := run_inv proj steps _ Inv.init
   refine ⟨by rw [hi.idx]; exact List.nodup_range, ?_⟩
-  intro sb hsb hl r hr
+  intro sb hsb hl hv r hr
   have ho : s.owner r = some sb.idx := by
     rcases (hi.out sb hsb r hr).2 with h | h
     · exact h
-    · rw [hl] at h; exact absurd h.2.1 (by decide)
+    · rw [hl, hv] at h
+      rcases h.2.2 with h' | h' <;> exact absurd h' (by decide)
   refine ⟨ho, ?_, ?_⟩
   · intro sb' hsb' hr'
     rcases (hi.out sb' hsb' r hr').2 with h | h
@@ -94,5 +97,13 @@ example :
       .send ⟨.update, 1, some 11, some 12, false⟩, .forward 0, .mergeIn 1, .emit 1]
     s.subs.map (·.out) = [[0, 1], [2]] ∧ s.heap 0 = ⟨.update, 1, some 10, some 11, false⟩ ∧
       s.heap 2 = ⟨.update, 1, some 10, some 12, false⟩ := by decide
+
+/-- a Value: `DropExcess` drops the older pending pointer; the lossy consumer then receives the bus's own cell (cell 1),
+the very cell the backpressure consumer received, and nothing was written -/
+example :
+    let s := run id ES.init [.vsub false false, .vsub true false,
+      .vsend ⟨.update, 0, none, some 11, false⟩, .forward 0, .vsend ⟨.update, 0, none, some 12, false⟩, .forward 0,
+      .dropIn 1, .forward 1]
+    s.subs.map (·.out) = [[0, 1], [1]] ∧ s.owner 1 = none ∧ s.heap 0 = ⟨.update, 0, none, some 11, false⟩ := by decide
 
 end ScVerif.C07.Events
